@@ -297,6 +297,28 @@ def _evaluator(ctx, repo):
             raise AnalysisError("rate selection of piecewise_polynomial not recognised; E needs a re-read")
         e1, bsel = sub.slice, ast.unparse(outer[0].slice)
     e2 = pows[0].right
+    # single-assignment locals (e.g. `powers = range(1, degree + 1)`) are inlined before the finite evaluation
+    nassign = {}
+    for t in ast.walk(fn):
+        if isinstance(t, ast.Assign) and isinstance(t.targets[0], ast.Name):
+            nassign[t.targets[0].id] = nassign.get(t.targets[0].id, 0) + 1
+    once = {t.targets[0].id: t.value for t in ast.walk(fn) if isinstance(t, ast.Assign) and isinstance(t.targets[0], ast.Name) and nassign[t.targets[0].id] == 1 and t.targets[0].id not in deg_names}
+
+    class _Inl(ast.NodeTransformer):
+        depth = 0
+
+        def visit_Name(self, n):
+            if isinstance(n.ctx, ast.Load) and n.id in once and n.id != pv and self.depth < 6:
+                self.depth += 1
+                r = self.visit(ast.parse(ast.unparse(once[n.id]), mode="eval").body)
+                self.depth -= 1
+                return r
+            return n
+
+    def _inl(e):
+        return ast.fix_missing_locations(_Inl().visit(ast.parse(ast.unparse(e), mode="eval").body))
+
+    loop_iter, e1, e2 = _inl(loop.iter), _inl(e1), _inl(e2)
     okb = bsel == binvar and ast.unparse(pows[0].left) == incvar
     pairs_ok = True
     detail = ""
@@ -304,7 +326,7 @@ def _evaluator(ctx, repo):
         for D in (1, 2, 3):
             envd = {dn: D for dn in deg_names}
             envd["__builtins__"] = {"range": range, "len": len}
-            it = list(eval(compile(ast.Expression(loop.iter), "<range>", "eval"), dict(envd)))  # noqa: S307 - integer range expression of the analysed loop header
+            it = list(eval(compile(ast.Expression(loop_iter), "<range>", "eval"), dict(envd)))  # noqa: S307 - integer range expression of the analysed loop header
             got = set()
             for k in it:
                 envk = dict(envd)
